@@ -7,7 +7,7 @@
    [norm] = the tree with matchers in printing order). [rx] = which regex matcher values compile (foreign code). *)
 From Coq Require Import ZArith List Bool String.
 From SH Require Import PromParse.Syntax Gen.PromParse PromParse.Lexer PromParse.Parser PromParse.Printer PromParse.Wf
-  PromParse.Proofs PromParse.Refuted.
+  PromParse.Proofs PromParse.Refuted PromParse.Faithful PromParse.LexD PromParse.LexE PromParse.LexF PromParse.LexNum PromParse.Text.
 Import ListNotations.
 Open Scope string_scope.
 
@@ -36,6 +36,45 @@ Theorem C28_print_injective_on_norm_partial :
   lex (print true e1) = Some (toks e1) -> lex (print true e2) = Some (toks e2) ->
   print true e1 = print true e2 -> norm e1 = norm e2.
 Proof. exact print_injective_on_norm. Qed.
+
+
+(* ---- string level (the token/text boundary) -------------------------------------------------------------------
+   "printing it and parsing the printed text": the printed text of a tree scans to exactly the token sequence the
+   token-level theorem is about. [wfs] is the lexical side of well-formedness: metric names, labels and the
+   function name are words, matcher names are alphanumeric, offset lists do not start with a negative entry (the
+   scanner rejects "[-"), and every duration / number literal / @ timestamp is one whose printed text scans back
+   ([dur_rt], [durb_rt], [num_rt], [ms_rt]: proved below for all non-zero durations below 2^33 s and for NaN and
+   +-Inf; for decimal literals and @ timestamps the condition stays a premise and is checked by computation on
+   every correspondence case). Proved for all trees: words, keywords, operators, brackets, braces, commas, quoted
+   strings (strconv.Quote read back by the Unquote model, all 256 byte values), separators between adjacent
+   tokens, the scanner's brace / bracket / colon / parenthesis state. *)
+Theorem C28_lex_print : forall e, wfs e -> lex (print true e) = Some (toks e).
+Proof. exact lex_print. Qed.
+
+(* the round trip through the text: no lexing premise any more *)
+Theorem C28_parse_print_text :
+  forall rx e, wf rx e = true -> wfs e -> parse rx (print true e) = Some (norm e).
+Proof. exact parse_print_text. Qed.
+
+(* the conditions on durations hold for every non-zero duration below 2^33 seconds (272 years) *)
+Theorem C28_durations_scan_back :
+  (forall d, d <> 0%Z -> (Z.abs d < 2 ^ 33)%Z -> dur_rt d) /\ (forall d, (0 < d < 2 ^ 33)%Z -> durb_rt d).
+Proof. exact (conj dur_rt_ok durb_rt_ok). Qed.
+Theorem C28_special_numbers_scan_back : num_rt (mkNum false MNaN) /\ (forall ng, num_rt (mkNum ng MInf)).
+Proof. exact (conj num_rt_nan num_rt_inf). Qed.
+
+(* ---- the printer AS IT IS in the source ----------------------------------------------------------------------
+   [finding_free e]: e contains none of the shapes of F-C28a..g (instant selector with offset, subquery, offset
+   list, group modifier after empty ignoring(), zero range, selector printing as "", and - conservatively for
+   F-C28g - no positive-infinity literal). On such trees printer.go and the repaired printer produce the same text,
+   so the round trip holds for the code as it is. *)
+Theorem C28_faithful_printer_outside_findings :
+  forall e, finding_free e = true -> print false e = print true e.
+Proof. exact faithful_is_repaired. Qed.
+
+Theorem C28_parse_print_faithful :
+  forall rx e, finding_free e = true -> wf rx e = true -> wfs e -> parse rx (print false e) = Some (norm e).
+Proof. exact parse_print_faithful. Qed.
 
 (* REFUTED for the printer as it is in the source ([print false], the faithful variant of the dual model); every
    witness is replayed on the real ParseExpr/String by the harness each run (findings F-C28a..f), and the repaired
@@ -82,3 +121,15 @@ Example C28_nonvacuous_sample :
   exists e, parse rx_all sample = Some e /\ wf rx_all e = true /\ lex (print true e) = Some (toks e) /\
             parse rx_all (print true e) = Some (norm e) /\ norm e <> e.
 Proof. eexists. split; [vm_compute; reflexivity|]. split; [vm_compute; reflexivity|]. split; [vm_compute; reflexivity|]. split; [vm_compute; reflexivity|]. vm_compute. congruence. Qed.
+
+(* non-vacuity of the text-level theorems: a tree with an aggregation, a call, a range selector with regex matcher,
+   @ end(), a negative offset, a binary operator with bool / on / group_left and a unary operand satisfies every
+   premise ([wf], [wfs] - established from the lemmas, not by scanning its text - and [finding_free]), so both the
+   repaired and the unmodified printer round-trip on it *)
+Example C28_nonvacuous_text :
+  wf rx_all sample_tree = true /\ wfs sample_tree /\ finding_free sample_tree = true /\
+  parse rx_all (print false sample_tree) = Some (norm sample_tree).
+Proof.
+  split; [vm_compute; reflexivity|]. split; [exact sample_wfs|]. split; [vm_compute; reflexivity|].
+  apply parse_print_faithful; [vm_compute; reflexivity | vm_compute; reflexivity | exact sample_wfs].
+Qed.
